@@ -54,6 +54,9 @@ func fakeServer(masks []int) h.Script {
 				m = masks[ehlos]
 			}
 			ehlos++
+			if m < 0 {
+				return []byte("502 5.5.1 EHLO not implemented\r\n") // the client falls back to HELO: no extension at all
+			}
 			return ehloReply(m)
 		case "HELO":
 			return []byte("250 hello\r\n")
@@ -98,6 +101,9 @@ var mailParamExt = map[string]string{"BODY": "8BITMIME", "SIZE": "SIZE", "REQUIR
 	"NOTIFY": "DSN", "ORCPT": "DSN", "RRVS": "RRVS"}
 
 func advertised(mask int, ext string) bool {
+	if mask < 0 {
+		return false
+	}
 	for i, e := range c15Exts {
 		if e == ext {
 			return mask&(1<<i) != 0
@@ -226,6 +232,9 @@ func evalC15Ext(c C15ExtCase) *h.Finding {
 }
 
 func maskNames(mask int) string {
+	if mask < 0 {
+		return "{EHLO refused, HELO}"
+	}
 	var p []string
 	for i, e := range c15Exts {
 		if mask&(1<<i) != 0 {
@@ -385,7 +394,7 @@ func C15(tier string) int {
 		strLen = 5
 	}
 	alpha := []byte{'\r', '\n', 0, ' ', '<', '>', 'a'}
-	run.Rule = fmt.Sprintf("(a) ALL 2^7 subsets of advertised extensions %v x ALL 2^6 subsets of MailOptions fields (and 2^3 of RcptOptions) against a scripted server, judged after the first EHLO and after a second EHLO (Reset) that advertises a different subset (complement and shifted subsets); (b) ALL strings of <=%d octets over {CR,LF,NUL,SP,'<','>','a'} in every string-typed argument (Hello, Verify, Mail from, Rcpt to, EnvelopeID, Auth, ORCPT rfc822/utf-8, SASL mechanism name). Octets written by each call are taken from the raw connection log. Distinct by construction; non-trivial = a parameter is requested that is not offered / the string contains CR, LF or NUL. Oracle: <=1 CRLF-terminated line per call and no bare CR/LF; CR/LF in an argument => local error, zero octets; every parameter on the wire is in the most recent EHLO reply; REQUIRETLS/SMTPUTF8 requested but not offered => local error.", c15Exts, strLen)
+	run.Rule = fmt.Sprintf("(a) ALL 2^7 subsets of advertised extensions %v x ALL 2^6 subsets of MailOptions fields (and 2^3 of RcptOptions) against a scripted server, judged after the first EHLO and after a second EHLO (Reset) that advertises a different subset (complement and shifted subsets), and against a server that refuses EHLO so that the client falls back to HELO (before or after a normal EHLO); (b) ALL strings of <=%d octets over {CR,LF,NUL,SP,'<','>','a'} in every string-typed argument (Hello, Verify, Mail from, Rcpt to, EnvelopeID, Auth, ORCPT rfc822/utf-8, SASL mechanism name). Octets written by each call are taken from the raw connection log. Distinct by construction; non-trivial = a parameter is requested that is not offered / the string contains CR, LF or NUL. Oracle: <=1 CRLF-terminated line per call and no bare CR/LF; CR/LF in an argument => local error, zero octets; every parameter on the wire is in the most recent EHLO reply; REQUIRETLS/SMTPUTF8 requested but not offered => local error.", c15Exts, strLen)
 	var ecases []C15ExtCase
 	for m1 := 0; m1 < 128; m1++ {
 		for opts := 0; opts < 64; opts++ {
@@ -393,6 +402,10 @@ func C15(tier string) int {
 			ecases = append(ecases, C15ExtCase{M1: m1, M2: 127 ^ m1, Opts: opts, Second: true})
 			ecases = append(ecases, C15ExtCase{M1: 127, M2: m1, Opts: opts, Second: true})
 		}
+	}
+	// a server that refuses EHLO (HELO fallback): nothing is negotiated, first or second time round
+	for opts := 0; opts < 64; opts++ {
+		ecases = append(ecases, C15ExtCase{M1: -1, M2: -1, Opts: opts}, C15ExtCase{M1: 127, M2: -1, Opts: opts, Second: true}, C15ExtCase{M1: -1, M2: 127, Opts: opts, Second: true})
 	}
 	h.ParallelFor(len(ecases), func(i int) {
 		c := ecases[i]
